@@ -118,8 +118,14 @@ class MarkerExpression(SingleMarker):
             ):
                 for _ in range(2 - dot_num):
                     pkg_version += ".0"
+            # Keep the given specifier as the cached view only when the value is
+            # its own text: a zero-padded value must derive its view from that
+            # text, otherwise two equal atoms would render merged results differently.
             return MarkerExpression(
-                name, pkg_spec.operator, pkg_version, _specifier=specifier
+                name,
+                pkg_spec.operator,
+                pkg_version,
+                _specifier=specifier if pkg_version == pkg_spec.version else None,
             )
         assert isinstance(specifier, GenericSpecifier)
         return MarkerExpression(
